@@ -1,5 +1,5 @@
 CONSTANTS
-  Clauses = {"Returns", "EventsLocatedInOrder", "EventsBracketed"}
+  Clauses = {"Returns", "EventsLocatedInOrder", "EventsBracketed", "AstNodesAreEventNodes"}
 INIT TInit
 NEXT TNext
 CHECK_DEADLOCK FALSE
